@@ -20,6 +20,7 @@ import (
 	"os"
 	"strings"
 	"sync"
+	"sync/atomic"
 
 	"verif/engine/enum"
 	"verif/engine/report"
@@ -280,6 +281,7 @@ func main() {
 		}
 		for k, v := range st.outcomes {
 			fmt.Printf("  outcome %s x%d\n", k, v)
+			r.Outcome(k, v)
 		}
 		r.Eval(st.evals)
 		r.Nontrivial(st.nontrivial)
@@ -435,7 +437,9 @@ func main() {
 	if rot < 0 {
 		rot += n
 	}
-	stride := n/11 + 1
+	// samples: about 7 field cases spread over sweep A and up to 5 handshake cases that returned a configuration
+	stride := n/7 + 1
+	var bSamples atomic.Int32
 	enum.Parallel(n, r.OutOfTime, func(i int) {
 		sh := shards[(i+rot)%n]
 		st := &stats{outcomes: map[string]int64{}}
@@ -444,10 +448,14 @@ func main() {
 				c := mk(md.via, sh.id, sh.ro, fl)
 				c.HTTP = md.http
 				c.Scenarios = md.scen
+				hs0 := st.handshakes
 				for _, f := range check(c, st) {
 					r.Fail(f.class, f.what, f.c)
 				}
-				if (i+int(r.Seed))%stride == 0 && fi == (i/stride)%len(sh.fl) && mi == 0 && r.WantSample() {
+				switch {
+				case sh.sweep == "A" && i%stride == 0 && fi == (i/stride*29+41+int(r.Seed%7))%len(sh.fl) && mi == len(sh.modes)-1:
+					r.Sample(c)
+				case sh.sweep != "A" && st.handshakes > hs0 && (i+fi)%5 == 2 && bSamples.Add(1) <= 5:
 					r.Sample(c)
 				}
 			}
@@ -474,7 +482,7 @@ func main() {
 		"http.Transport semantics are emulated for tls.Client handshakes by cloning the returned configuration and defaulting ServerName to the dialled host; the HTTP mode uses the returned transport itself",
 	)
 	M.cleanup()
-	r.Finish("sweep A: full product certificate file x key file x loaded certificate x loaded key x CA file x loaded CA x pool x server name x insecure x callback x tickets x cache x entry point, one call of the real entry point each, every field clause judged; sweeps B1/B2: the stated sub-products x server scenarios, a fresh call of the entry point plus one real TLS handshake over net.Pipe each. evaluations = calls of TLSClientAuth/TLSTransport/TLSClient. non-trivial = first call of a case that returned a configuration (all field clauses evaluated) or returned an error where the reference demands one (certificate supplied, no usable pair); cases are distinct by construction (the enumerators never repeat an (options, entry point, mode) tuple within a sweep)", !restricted)
+	r.Finish("sweep A: full product certificate file x key file x loaded certificate x loaded key x CA file x loaded CA x pool x server name x insecure x callback x tickets x cache (x entry point: quick = TLSClientAuth and TLSClient over everything; thorough = TLSClientAuth over everything, TLSTransport and TLSClient over the full product restricted to the quick identity alphabet), one call of the real entry point each, every field clause judged; sweeps B1/B2: the stated sub-products x server scenarios, a fresh call of the entry point plus one real TLS handshake over a buffered in-memory pipe against an in-process tls.Server each (through tls.Client on the returned configuration, or through http.Client.Do / RoundTrip of the returned object). evaluations = calls of TLSClientAuth/TLSTransport/TLSClient. non-trivial = first call of a case that returned a configuration (all field clauses evaluated) or returned an error where the reference demands one (certificate supplied, no usable pair); cases are distinct by construction (the enumerators never repeat an (options, entry point, mode) tuple within a sweep)", !restricted)
 }
 
 type mode struct {
